@@ -8,6 +8,7 @@ from ..model import AnalysisError, FuncInfo, Program, body_walk, calls_in_body, 
 from ..poly import Poly, PolyEnv
 from ..props import transparent_casts
 from ..report import Result
+from ..normalform import canon, normal_form, returned
 from ..stream import dict_literal_keys, plan_loops, prep_calls, with_range_len
 
 TITLE = "Output metadata describes the output data"
@@ -108,7 +109,17 @@ def run(prog: Program, res: Result, tier: str) -> None:
                 res.ok("R3", f, c, f"{len(d)} update key(s) are Header fields", key=key)
     # new_header really filters by attrs fields (that is why unknown keys vanish) and builds a new Header
     nh = prog.func(HEADER, "Header.new_header")
-    okn = "attrs.asdict(self)" in norm(nh.node) and "new.update(update_dict)" in norm(nh.node) and "Header(**new_checked)" in norm(nh.node)
+    from ..normalform import canon, normal_form, returned
+    from ..pathcond import guarded, holds, path_conditions, rejection
+    nfn = normal_form(nh)
+    base_ = [e for e in nfn.effects if e.kind == "set" and e.target.startswith("$") and e.text() == canon("attrs.asdict(self)")]
+    okn = len(base_) == 1
+    if okn:
+        d_ = base_[0].target
+        ups_ = nfn.calls(f"{d_}.update")
+        okn = len(ups_) == 1 and ups_[0].text() == f"{d_}.update(update_dict)" and \
+            [e.text() for e in nfn.returns()] == [canon("Header(**{key: value for key, value in NEW.items() if key in attrs.asdict(self)})").replace("NEW", d_)] and \
+            not [e for e in nfn.effects if e.kind in ("set", "expr") and e is not base_[0] and e not in ups_ and d_ in (e.target or "") + e.text()[:len(d_) + 1]]
     (res.ok if okn else res.bad)("R3", nh, nh.node, "new_header = attrs.asdict(self) updated by the dict, filtered to fields, rebuilt"
                                  if okn else "new_header no longer builds the derived header from asdict + update", construct="new_header", key="new_header")
 
@@ -120,18 +131,29 @@ def run(prog: Program, res: Result, tier: str) -> None:
     # the containers themselves refuse data whose length differs from the header (mechanism named by the property's anchors)
     for modname, qual, lenexpr in (("sigpyproc.block", "BaseBlock._check_input", "self.nsamples"), ("sigpyproc.timeseries", "TimeSeries._check_input", "len(self.data)")):
         f = prog.func(modname, qual)
-        from ..cfg import always_raises as _ar
-        gs = [s for s in body_walk(f.node) if isinstance(s, ast.If) and _ar(s.body) and norm(s.test) in (f"{lenexpr} != self.header.nsamples", f"self.header.nsamples != {lenexpr}")]
-        ok = len(gs) == 1 and "ValueError" in norm(gs[0])
+        other_ = lenexpr
+        gs = []
+        ok = any(e.under(f"{other_} != self.header.nsamples") for e in normal_form(f).raises())
+        if ok:
+            # and it is a ValueError: the raise statement guarded by that test
+            from ..dataflow import flow_of as _fo
+            pc_ = path_conditions(_fo(f))
+            ok = False
+            for r_ in [x for x in body_walk(f.node) if isinstance(x, ast.Raise)]:
+                if holds(pc_, r_, f"{other_} != self.header.nsamples") is not None and r_.exc is not None and \
+                        dotted(r_.exc.func if isinstance(r_.exc, ast.Call) else r_.exc) == "ValueError":
+                    ok = True
         (res.ok if ok else res.bad)("R1", f, gs[0] if gs else f.node, "the container raises ValueError when the data length differs from header.nsamples" if ok else
                                     f"{qual} no longer rejects data whose length differs from header.nsamples", key=f"{qual}:length-check", construct=qual)
     for modname, qual, called in (("sigpyproc.block", "BaseBlock.__init__", "self._check_input()"), ("sigpyproc.timeseries", "TimeSeries.__init__", "self._check_input()")):
         f = prog.func(modname, qual)
-        ok = called in norm(f.node)
+        nff = normal_form(f)
+        ok = any(e.text() == canon(called) and not e.ctx for e in nff.exprs()) and \
+            all(nff.before(st_, next(e for e in nff.exprs() if e.text() == canon(called))) for st_ in nff.effects if st_.kind == "set")
         (res.ok if ok else res.bad)("R1", f, f.node, "the constructor runs the consistency check" if ok else f"{qual} no longer calls _check_input",
                                     key=f"{qual}:calls-check", construct=qual)
     bn = prog.func("sigpyproc.block", "BaseBlock.nsamples")
-    ok = "return self.data.shape[1]" in norm(bn.node)
+    ok = returned(bn) == [canon("self.data.shape[1]")]
     (res.ok if ok else res.bad)("R1", bn, bn.node, "block nsamples = data.shape[1]" if ok else "BaseBlock.nsamples is not data.shape[1]", key="BaseBlock.nsamples", construct="nsamples")
 
     # ---- R2 tstart follows start -------------------------------------------------------------------------
@@ -165,7 +187,7 @@ def run(prog: Program, res: Result, tier: str) -> None:
             else:
                 res.ok("R2", f, ups[0][0], "tstart = header.mjd_after_nsamps(start)", key=key)
     m = prog.func(HEADER, "Header.mjd_after_nsamps")
-    okm = "self.obs_time + TimeDelta(nsamps * self.tsamp, format='sec')" in norm(m.node) and norm(m.node).rstrip().endswith("return new_time.mjd")
+    okm = returned(m) == [canon("(self.obs_time + TimeDelta(nsamps * self.tsamp, format='sec')).mjd")]
     (res.ok if okm else res.bad)("R2", m, m.node, "mjd_after_nsamps(n) = (obs_time + n*tsamp seconds).mjd" if okm else
                                  "mjd_after_nsamps no longer adds nsamps*tsamp seconds to the start epoch", construct="mjd_after_nsamps", key="mjd_after_nsamps")
 
@@ -236,7 +258,7 @@ def _header_algebra(prog: Program, res: Result, rule: str) -> None:
                                     f"Header.{name} is `{norm(pe) if pe is not None else '?'}`, expected `{w}`: channel labels / band edges / durations "
                                     f"derived from it no longer describe the data", construct=f"Header.{name}", key=f"hdr:{name}")
     dh = hdr.methods.get("dedispersed_header")
-    ok = dh is not None and "return self.new_header({'dm': dm, 'nchans': 1, 'data_type': 'time series', 'nbits': 32})" in norm(dh.node)
+    ok = dh is not None and returned(dh) == [canon("self.new_header({'dm': dm, 'nchans': 1, 'data_type': 'time series', 'nbits': 32})")]
     (res.ok if ok else res.bad)(rule, dh, dh.node if dh else hdr.node, "dedispersed_header(dm): dm recorded, one channel, 32-bit time series" if ok else
                                 "dedispersed_header no longer records (dm, nchans=1, time series, 32 bit)", construct="dedispersed_header", key="hdr:dedispersed")
 
